@@ -26,7 +26,94 @@ def c17():
     return obs
 
 
-TABLE = {'C17': c17}
+
+def pfc_caps(n, l, bs, memalloc):
+    """allocation case-split caps derived from the stated bounds (checked by assertion, not assumed)"""
+    bs = max(bs, 2)
+    reserved = memalloc * bs
+    total = n * (l + 2)
+    while reserved < total + 2 * l: reserved *= 2
+    maxbytes = max(reserved, n * (l + 1), l + 2)
+    entries = (n + bs - 1) // bs + 2
+    cap = 1
+    while cap < entries: cap *= 2
+    return {'IR2C_MAXBYTES': maxbytes, 'IR2C_MAXELEMS': max(cap, 2)}
+
+
+def pfc(name, prop, entry, n, l, bs, unwind=None, memalloc=None, **kw):
+    """PFC whole-kind obligation.  memalloc=None: the MEMALLOC hook is set so that the text buffer never has to
+    grow (growth is decided by the dedicated C07 obligations, which pass memalloc explicitly)."""
+    defs = {'NSTR': n, 'LMAX': l, 'BS': bs}
+    defs.update(kw.pop('defs', {}))
+    # image: 32-byte header + text (<= n*(l+2)) + LogSequence (9 + 8*words)
+    defs.setdefault('VS_BOUND', 32 + n * (l + 2) + 9 + 16)
+    bss = [max(bs, 2)] + ([max(defs['BS2'], 2)] if 'BS2' in defs else [])
+    grow = memalloc is not None
+    if memalloc is None:
+        memalloc = max(-(-(n * (l + 2) + 2 * l) // min(bss)), 2)
+    caps = [pfc_caps(n, l, b, memalloc) for b in bss]
+    cdefs = {k: max(c[k] for c in caps) for k in caps[0]}
+    cdefs['VS_CAP'] = defs['VS_BOUND']
+    cdefs.update(kw.pop('cdefs', {}))
+    kw.setdefault('timeout', 240)
+    us = {'^(h_|_ZL)': (n + 2) * (l + 4), '_ZSt14__relocate': cdefs['IR2C_MAXELEMS'] + 1, '_ZNSo5write': cdefs['IR2C_MAXBYTES'] + 1, '_ZNSi4read': cdefs['IR2C_MAXBYTES'] + 1}
+    if grow: us['_Z10ReallocatePPhm'] = cdefs['IR2C_MAXBYTES'] + 1
+    us.update(kw.pop('unwindset', {}))
+    return O(name, prop, 'h_pfc.cpp', entry, PFC_TUS, defs=defs, libdefs={'LIBCSD_VERIF_MEMALLOC': memalloc}, cdefs=cdefs,
+             unwind=unwind or max(n + 2, l + 3), unwindset=us,
+             bounds='%d strings x 1..%d bytes over 0x02..0xFE (all sorted sets), bucketsize %s, MEMALLOC hook %d%s' %
+                    (n, l, bs, memalloc, ' (buffer growth exercised)' if grow else ''), **kw)
+
+
+def c01():
+    obs = []
+    obs.append(pfc('c01.pfc.n2l2.bs2', 'C01', 'h_pfc_c01', 2, 2, 2))
+    obs.append(pfc('c01.pfc.n3l2.bs2', 'C01', 'h_pfc_c01', 3, 2, 2))
+    obs.append(pfc('c01.pfc.n3.len222.bs2', 'C01', 'h_pfc_c01', 3, 2, 2, defs={'LENV': '{2,2,2}'}))
+    obs.append(pfc('c01.pfc.n3.len121.bs2', 'C01', 'h_pfc_c01', 3, 2, 2, defs={'LENV': '{1,2,1}'}))
+    obs.append(pfc('c01.pfc.n4.len2222.bs2', 'C01', 'h_pfc_c01', 4, 2, 2, defs={'LENV': '{2,2,2,2}'}, timeout=900))
+    obs.append(pfc('c01.pfc.n3.len333.bs2', 'C01', 'h_pfc_c01', 3, 3, 2, defs={'LENV': '{3,3,3}'}, timeout=900))
+    return obs
+
+
+def px():
+    obs = []
+    for e in ['c04x', 'c12', 'saveload']:
+        obs.append(pfc('px.%s' % e, 'PX', 'h_pfc_' + e, 3, 2, 2, defs={'LENV': '{1,2,2}'}, timeout=900))
+    return obs
+
+
+BITSEQ_TUS = ['libcds/src/bitsequence/BitSequence.cpp', 'libcds/src/bitsequence/BitSequenceRG.cpp', 'libcds/src/utils/BitString.cpp', 'libcds/src/utils/cppUtils.cpp']
+DAC_TUS = ['utils/DAC_VLS.cpp', 'utils/DAC_BVLS.cpp'] + BITSEQ_TUS
+BITSEQ_STUBS = ['_ZN10cds_static14BitSequenceRRR4loadERSi', '_ZN10cds_static18BitSequenceSDArray4loadERSi', '_ZN10cds_static17BitSequenceDArray4loadERSi']
+
+
+def unit(name, prop, entry, tus, **kw):
+    kw.setdefault('extra_stub', BITSEQ_STUBS)
+    kw.setdefault('extra_c', ['stub_bitseq_loaders.c'])
+    return O(name, prop, 'h_units.cpp', entry, tus, **kw)
+
+
+def ux():
+    obs = []
+    d = {'NSEQ': 2, 'SEQLENS': '{2,1}', 'MAXSEQ': 2, 'VS_BOUND': 96}
+    c = {'IR2C_MAXBYTES': 16, 'IR2C_MAXELEMS': 8, 'VS_CAP': 96}
+    obs.append(unit('ux.dacvls.access', 'UX', 'h_dacvls_access', DAC_TUS, defs=d, cdefs=c, unwind=8))
+    obs.append(unit('ux.dacvls.saveload', 'UX', 'h_dacvls_saveload', DAC_TUS, defs=d, cdefs=c, unwind=8, unwindset={'_ZNSo5write': 33, '_ZNSi4read': 33, 'verif_stream_equal': 97}))
+    obs.append(unit('ux.dacbvls', 'UX', 'h_dacbvls', DAC_TUS, defs=dict(d, BVLS_SAVE=None), cdefs=c, unwind=8, unwindset={'_ZNSo5write': 33, '_ZNSi4read': 33, 'verif_stream_equal': 97}))
+    d1 = {'NSEQ': 2, 'SEQLENS': '{1,1}', 'MAXSEQ': 1, 'VS_BOUND': 96}
+    obs.append(unit('ux.dacvls.access.len1', 'UX', 'h_dacvls_access', DAC_TUS, defs=d1, cdefs=c, unwind=8))
+    b = {'NBITS': 33, 'FACTOR': 4, 'VS_BOUND': 96}
+    obs.append(unit('ux.bitseqrg', 'UX', 'h_bitseqrg', BITSEQ_TUS, defs=b, cdefs=c, unwind=36))
+    obs.append(unit('ux.bitseqrg.saveload', 'UX', 'h_bitseqrg_saveload', BITSEQ_TUS, defs=b, cdefs=c, unwind=36))
+    obs.append(unit('ux.bitstring', 'UX', 'h_bitstring', BITSEQ_TUS, defs=b, cdefs=c, unwind=36))
+    for e in ['contiguous', 'duplicates', 'nocontiguous', 'stringvector']:
+        obs.append(unit('ux.it.' + e, 'UX', 'h_it_' + e, [], defs={'NIDS': 4}, cdefs=c, unwind=8, unwindset={'^h_': 20}))
+    obs.append(unit('ux.reallocate', 'UX', 'h_reallocate', [], defs={'RLEN': 4}, cdefs=c, unwind=18))
+    return obs
+
+
+TABLE = {'C17': c17, 'C01': c01, 'PX': px, 'UX': ux}
 
 
 def obligations(prop):
